@@ -310,8 +310,8 @@ def rule_subgraph_refs(repo, rep):
     if len(members) < 3:
         raise AnalysisError("option members naming subgraphs not found")
     po = repo.mod("tflite_reader").func("TFLiteSubgraph.parse_operator")
-    resolved = {x.slice.value for x in ast.walk(po) if isinstance(x, ast.Subscript) and str(norm(x.value)) == "op.attrs" and isinstance(x.slice, ast.Constant) and isinstance(x.slice.value, str)
-                and x.slice.value.endswith("_subgraph_index")}
+    resolved = {x.slice.value for x in ast.walk(po) if isinstance(x, ast.Subscript) and str(norm(x.value)).endswith(".attrs") and isinstance(x.value, ast.Attribute) and isinstance(x.value.value, ast.Name)
+                and isinstance(x.slice, ast.Constant) and isinstance(x.slice.value, str) and x.slice.value.endswith("_subgraph_index")}
     # ... and the callee's tensors are marked live at *every* call site: a visit of a subgraph that was visited before (two WHILE operators
     # sharing cond / body) may not return before the ranges have been extended to the current time
     lr = repo.mod("live_range")
